@@ -178,6 +178,71 @@ PINNED = [
 PINNED_HANG = ('lazy-unbounded-over-nullable', 'xpath', '', _s(_q(_g(_q(_l('a'), 0, None, '*')), 0, None, '*', True), _l('b')), ['aab', 'b'])
 
 
+# ---------------------------------------------------------------------------------------------------
+#  systematic family: a closure over a character class followed by a second class, for every way the two classes can
+#  lie to each other (the engine decides from the overlap of the two whether the closure may run without backtracking;
+#  random expressions almost never produce two classes that touch in exactly one character)
+# ---------------------------------------------------------------------------------------------------
+CLASS_RELATIONS = ('gap-below', 'adjacent-below', 'touch-below', 'overlap2-below', 'inside', 'equal', 'around', 'overlap2-above',
+                   'touch-above', 'adjacent-above', 'gap-above', 'second-range-touch-below', 'second-range-touch-above')
+CLOSURE_FORMS = ((0, None, '*'), (1, None, '+'), (2, None, '{n,}'), (0, 3, '{n,m}'))
+
+
+def class_pair(rel, p):
+    """(items of A, items of B): A is the class under the closure; p = code point of A's lowest character"""
+    A = [('rng', p, p + 5)]
+    B = {
+        'gap-below': [('rng', p - 6, p - 2)], 'adjacent-below': [('rng', p - 5, p - 1)], 'touch-below': [('rng', p - 5, p)],
+        'overlap2-below': [('rng', p - 4, p + 1)], 'inside': [('rng', p + 1, p + 3)], 'equal': [('rng', p, p + 5)],
+        'around': [('rng', p - 2, p + 7)], 'overlap2-above': [('rng', p + 4, p + 9)], 'touch-above': [('rng', p + 5, p + 10)],
+        'adjacent-above': [('rng', p + 6, p + 10)], 'gap-above': [('rng', p + 7, p + 11)],
+    }.get(rel)
+    if rel == 'second-range-touch-below':
+        A = [('rng', p, p + 1), ('rng', p + 6, p + 8)]
+        B = [('rng', p + 3, p + 6)]
+    elif rel == 'second-range-touch-above':
+        A = [('rng', p, p + 1), ('rng', p + 6, p + 8)]
+        B = [('rng', p + 8, p + 10), ('lit', p - 3)]
+    return A, B
+
+
+def family_cases(seed, tier):
+    out = []
+    n = 0
+    for dialect in ('xsd', 'xpath'):
+        for rel in CLASS_RELATIONS:
+            for (mn, mx, form) in CLOSURE_FORMS:
+                for tail in ((), (_l('Z'),)):
+                    if tier == 'quick' and tail and form in ('{n,}', '{n,m}'):
+                        continue
+                    rnd = core.rng(seed, PID, 'family', dialect, rel, form, len(tail))
+                    p = rnd.choice([ord('g'), ord('j'), ord('m'), 0x37])     # letters, and digits running into ':' ... 'B'
+                    if p == 0x37:
+                        p = 0x33
+                    A, B = class_pair(rel, p)
+                    ast = _s(_q(_c(A), mn, mx, form), _c(B), *tail)
+                    ref = R.Ref(ast, dialect, '')
+                    alpha, strings = R.strings_for(ast, ref.env, rnd, big=False, nlong=6)
+                    strings = [list(t) for t in strings]
+                    # the strings that end in each end of B after 0..3 characters of A
+                    ends = sorted(set(x for it in B for x in ((it[1], it[2]) if it[0] == 'rng' else (it[1],))))
+                    firsts = sorted(set(x for it in A for x in (it[1], it[2])))
+                    for e in ends:
+                        for k in range(0, 4):
+                            for f in firsts:
+                                t = [f] * k + [e] + [x[1] for x in tail]
+                                if t not in strings:
+                                    strings.append(t)
+                    c = build_case('fam%03d' % n, ast, dialect, '', rnd, strings=strings)
+                    n += 1
+                    exp, _ = expectations(c)
+                    c.meta['exp'] = [[1 if v else 0, st] for v, st in exp]
+                    c.meta['self_bad'] = 0
+                    c.meta['family'] = '%s:%s' % (rel, form)
+                    out.append(c)
+    return out
+
+
 def pinned_cases(which=None):
     out = []
     for name, dialect, flags, ast, extra in (PINNED if which is None else which):
@@ -889,6 +954,10 @@ def run(tier):
                 pins = pinned_cases()
                 recs = run_cases(binary, pins, shards=min(J, 4), tag='c11q', per_case_timeout=5.0)
                 handle(pins, recs)
+                fam = family_cases(ck.seed, tier)
+                recs = run_cases(binary, fam, shards=min(J, 4), tag='c11f', per_case_timeout=5.0)
+                handle(fam, recs)
+                ck.cov['class_pair_family'] = {'expressions': len(fam), 'relations': list(CLASS_RELATIONS), 'closure_forms': [f[2] for f in CLOSURE_FORMS]}
             cases = []
             for f in nxt:
                 cases.extend(f.result())
